@@ -382,6 +382,17 @@ VARIANTS += [
     V("rev-F50", ["C15"], C, "        nodes = tuple(nodes)\n        for node in nodes:\n            float(node)  # Verify if it's a number, before any removal\n        nodes = tuple(set(nodes) - set(self.knotvector.limits))\n", "        nodes = tuple(set(nodes) - set(self.knotvector.limits))\n", "COMMIT-LOOP", "knot_clean", "elements of nodes validated between commits"),
     V("twin-knot-clean-valid-first", ["C15", "C14"], C, "        nodes = tuple(nodes)\n        for node in nodes:\n            float(node)  # Verify if it's a number, before any removal\n        nodes = tuple(set(nodes) - set(self.knotvector.limits))\n", "        nodes = list(nodes)\n        [float(node) for node in nodes]\n        nodes = tuple(set(nodes) - set(self.knotvector.limits))\n", None, None, "all nodes probed by a comprehension before the loop", twin=True),
     V("twin-degree-setter-raise-valueerror", ["C15", "C03"], K, "        diff = int(value) - self.degree\n", "        if int(value) < 0:\n            raise ValueError(\"negative degree\")\n        diff = int(value) - self.degree\n", None, None, "negative degree refused with ValueError", twin=True),
+    V("twin-insert-guard-swapped", ["C04"], C, "        if self.ctrlpoints is None and self.weights is None:\n            self.knotvector = newvector\n            return\n", "        if self.weights is None and self.ctrlpoints is None:\n            self.knotvector = newvector\n            return\n", None, None, "conjuncts of the no-control-points shortcut swapped", twin=True),
+    V("twin-evaluator-weights-local", ["C02"], F, "        self.__weights = func.weights\n", "        weights = func.weights\n        self.__weights = weights\n", None, None, "weights through a local", twin=True),
+    V("twin-fit-poly-error-method-max", ["C11", "C05"], C, "        error = np.max(np.abs(error))\n        self.ctrlpoints = ctrlpoints\n", "        error = np.abs(error).max()\n        self.ctrlpoints = ctrlpoints\n", None, None, "maximum of absolute values as a method call", twin=True),
+    V("twin-random-count-local", ["C18"], K, "        weights = np.random.randint(1, 1000, npts - degree)\n", "        nspans = npts - degree\n        weights = np.random.randint(1, 1000, size=nspans)\n", None, None, "count through a local and a keyword", twin=True),
+    V("twin-min-distance-explicit-default", ["C20"], A, "        pairs = Intersection.pairs_min_distance(pairs, curvea, curveb)\n        return pairs\n", "        pairs = Intersection.pairs_min_distance(pairs, curvea, curveb, 0.000000001)\n        return pairs\n", None, None, "the default tolerance written out", twin=True),
+    V("twin-fit-weights-error-inline", ["C06", "C19", "C05", "C14"], C, "            error += abs(np.dot(oldweights, np.dot(materror, oldweights)))\n", "            error += abs(np.dot(other.weights, np.dot(materror, other.weights)))\n", None, None, "the weights term written with other.weights", twin=True),
+    V("twin-lstsq-normal-local", ["C12"], H, "        return Linalg.solve(matrix.T @ matrix, matrix.T)\n", "        transposed = matrix.T\n        normal = transposed @ matrix\n        return Linalg.solve(normal, transposed)\n", None, None, "normal equations through locals", twin=True),
+    V("twin-knot-remove-nodes-list", ["C05"], C, "        nodes = tuple(nodes)\n        for node in nodes:\n            float(node)\n        newknotvec = self.knotvector - tuple(nodes)\n", "        nodes = list(nodes)\n        for node in nodes:\n            float(node)\n        newknotvec = self.knotvector - tuple(nodes)\n", None, None, "nodes materialised as a list", twin=True),
+    V("twin-union-own-knots-attr", ["C17", "C08"], H, "            for knot in vector:\n                index = all_knots.index(knot)\n", "            for knot in vector.knots:\n                index = all_knots.index(knot)\n", None, None, "the operand's distinct knots walked instead of all its entries", twin=True),
+    V("lstsq-row-scaling", ["C12"], H, "        return Linalg.solve(matrix.T @ matrix, matrix.T)\n", "        scale = np.abs(matrix).max(axis=1)\n        matrix = matrix / scale[:, None]\n        return Linalg.solve(matrix.T @ matrix, matrix.T) / scale\n", "LSTSQ-ROWS", "lstsq", "rows normalised before the normal equations"),
+    V("eval-zero-from-last-node", ["C01"], H, "    result = np.zeros((npts, len(nodes)), dtype=\"object\")\n", "    result = np.zeros((npts, len(nodes)), dtype=\"object\") + 0 * nodes[-1]\n", "NODE-EACH", "eval_spline_nodes", "typed zero taken from the last node"),
     V("twin-derivative-rows-generator", ["C09"], H, "        rows = [\n            i\n            for i in range(knotvector.npts)\n            if knotvector[i + degree] != knotvector[i]\n        ]\n        matrix = np.transpose(matrix)[rows]\n", "        rows = list(i for i in range(1, knotvector.npts) if knotvector[i] < knotvector[i + degree])\n        matrix = np.transpose(matrix)[rows]\n", None, None, "rows selected with a generator and a strict comparison", twin=True),
 ]
 
